@@ -49,3 +49,57 @@ Proof.
   clear -F. revert F. generalize (seq 0 (q_accepted s)). intros l. revert r0.
   induction l as [|i l IH]; intros r0 F; inversion F; subst; constructor; auto.
 Qed.
+
+(* ------------------------------------------------------------------ the stack under faults
+   A buffered sink behind the queue: the outcome the worker sees for a delivered metric IS the
+   result of the writer's emit for it.  [sout_of] is that reading: Ok -> the wrapped sink accepted,
+   an error (Interrupted included: it is an io::Error like any other, id 0) -> it failed with that
+   error, an arithmetic panic -> it panicked. *)
+Definition sout_of (x : ores) : soutcome :=
+  match x with OOk _ => SOk | OErr e => SErr (N.to_nat e) | OIntr => SErr 0 | OPanic => SPanic end.
+
+(* the failures among the writer's results, with the identities of their metrics *)
+Fixpoint werrs (ids : list nat) (xs : list ores) : list (nat * nat) :=
+  match ids, xs with
+  | i :: ids', x :: xs' =>
+    match sout_of x with SErr e => (i, e) :: werrs ids' xs' | _ => werrs ids' xs' end
+  | _, _ => []
+  end.
+
+Lemma errs_of_results : forall (dl : list (nat * soutcome)) xs,
+  map snd dl = map sout_of xs -> errs dl = werrs (map fst dl) xs.
+Proof.
+  induction dl as [|[i o] dl IH]; intros xs H; destruct xs as [|x xs]; try discriminate; [reflexivity|].
+  cbn in H. inversion H as [[Ho Hr]]. cbn [map fst errs werrs]. rewrite <- Ho.
+  destruct o; rewrite (IH _ Hr); reflexivity.
+Qed.
+
+(* In every state of every history of the queue whose wrapped sink is the line-buffering writer
+   (the outcomes in the delivery log are the writer's results for the delivered metrics, whatever
+   the socket's fault script): the queue's error handler has been given exactly the writer's error
+   results, each once, in order, with the identity of its metric; every error it was given is an
+   error the socket returned during that very emit; every datagram is framed as C05 says; and
+   the writer's ledger (C07) holds for the metrics whose emit returned Ok to the worker *)
+Theorem stack_faults cap evs s rs c e script pay xs w :
+  Queue.run true (init_q cap true) evs = Some (s, rs) ->
+  Writer.run_from (init c e script) 0 (delivered_ops pay (q_delivered s)) = (xs, w) ->
+  map snd (q_delivered s) = map sout_of xs ->
+  q_handled s = werrs (map fst (q_delivered s)) xs /\
+  (forall i er, nth_error xs i = Some (OErr er) ->
+     exists a, In a (lg w) /\ a_op a = i /\ a_out a = WErr er) /\
+  Forall (frame_ok c e) (lg w) /\
+  filter (nzb e) (sentL (lg w) ++ bids w) =
+    filter (nzb e) (fit_ids c e (acked 0 (delivered_ops pay (q_delivered s)) xs)) /\
+  sentA (lg w) = big_ids c e (acked 0 (delivered_ops pay (q_delivered s)) xs).
+Proof.
+  intros R W H.
+  split.
+  - rewrite (reach_handled _ _ _ _ _ R). apply errs_of_results, H.
+  - destruct (results_sound _ _ _ _ _ _ W) as (_ & _ & Err).
+    destruct (ledger_reach _ _ _ _ _ _ W) as (L & A).
+    destruct (reach_inv _ _ _ _ _ _ W) as (_ & _ & _ & atts & P).
+    destruct P as [_ _ Lg _ Fr _ _ _ _ _ _]. cbn in Lg, Fr.
+    split; [|split; [|split; assumption]].
+    + intros i er Hn. exact (Err i (OErr er) Hn).
+    + rewrite Lg. exact Fr.
+Qed.
